@@ -115,6 +115,12 @@ func classifyCond(info *types.Info, e ast.Expr) condInfo {
 
 type ErrStates map[int]map[string]bool
 
+// edgeKey encodes a CFG edge as a negative map key (states that flowed along the edge).
+func edgeKey(from, to int) int { return -(from*1000000 + to) - 1 }
+
+// along returns the states that flowed along the edge from->to.
+func (s ErrStates) along(from, to int) map[string]bool { return s[edgeKey(from, to)] }
+
 func (s ErrStates) at(id int) []string {
 	var r []string
 	for k := range s[id] {
@@ -133,7 +139,13 @@ func (f *Flat) ErrStatesFrom(A int, E types.Object) ErrStates {
 		state string
 	}
 	var work []item
+	cur := A
 	push := func(id int, s string) {
+		ek := edgeKey(cur, id)
+		if st[ek] == nil {
+			st[ek] = map[string]bool{}
+		}
+		st[ek][s] = true
 		if st[id] == nil {
 			st[id] = map[string]bool{}
 		}
@@ -149,6 +161,7 @@ func (f *Flat) ErrStatesFrom(A int, E types.Object) ErrStates {
 		it := work[len(work)-1]
 		work = work[:len(work)-1]
 		n := f.Nodes[it.id]
+		cur = it.id
 		if n.Ast != nil {
 			kill := false
 			for _, o := range assignedObjs(info, n.Ast) {
